@@ -551,6 +551,26 @@ def check_C07(ctx):
                         "a body cut short is presented as net/http presents it: io.ErrUnexpectedEOF, or a clean io.EOF"]
 
 
+def check_C09(ctx):
+    import random
+    rnd = random.Random(ctx.seed)
+    extra = []
+    for i in range(150 if ctx.quick else 3000):
+        extra.append({"fam": "prop", "mant": rnd.randint(1, 9999), "exp": rnd.randint(2, 10), "kind": rnd.choice(["unary", "stream"])})
+    for i in range(100 if ctx.quick else 2000):
+        v = rnd.choice([rnd.randint(0, 99), rnd.randint(0, 99999999)])
+        extra.append({"fam": "parse", "sign": "", "val": v, "digits": 0, "big": "no", "unit": rnd.choice("HMSmun"),
+                      "lead": False, "trail": False})
+    l2_stateless(ctx, "Deadline", "deadline",
+                 "Deadline!Cases: GRPC-Timeout header shapes (every unit incl. invalid ones x representative 1..8 digit values "
+                 "incl. the hour overflow boundary, over-long 9..25 digit values, signs, blanks, no digits) sent to the real "
+                 "server with the handler's ctx.Deadline() measured; caller deadlines from 100 us to 10 years (plus seeded "
+                 "random ones) through the real client and server over loopback with one-sided scaled measurements",
+                 extra_cases=extra, sig_keys=("fam", "unit", "val", "digits", "sign", "kind"))
+    ctx.assumptions += ["instants are taken with Go's monotonic clock in one process and scaled outward into units < 2^30",
+                        "tiny caller deadlines that expire before the handler runs are counted as conforming"]
+
+
 def check_C11(ctx):
     ctx.exhaustive = True
     l2_stateless(ctx, "HttpGate", "gate",
@@ -566,5 +586,5 @@ def check_C11(ctx):
 CHECKS = {
     "C01": check_C01, "C02": check_C02, "C03": check_C03, "C04": check_C04, "C05": check_C05,
     "C08": check_C08, "C20": check_C20,
-    "C14": check_C14, "C11": check_C11, "C07": check_C07,
+    "C14": check_C14, "C11": check_C11, "C07": check_C07, "C09": check_C09,
 }
